@@ -124,7 +124,63 @@ def strip_docstring(fn):
     return body
 
 
-def get_function(fq):
+class Unsupported(Exception):
+    """The function is outside the verified subset (never reported as a violation)."""
+
+    def __init__(self, msg, node=None):
+        Exception.__init__(self, msg)
+        self.node = node
+
+
+class NoSource(Unsupported, KeyError):
+    """No analysable `def` for this name in the tree being checked (function built by a factory, wrapped by a
+    decorator that does not return it unchanged, removed, ...): the unit is outside the verified subset."""
+
+    def __str__(self):
+        return Exception.__str__(self)
+
+
+def _live(fq):
+    ensure_repo_on_path()
+    parts = fq.split(".")
+    for i in range(len(parts) - 1, 0, -1):
+        try:
+            obj = importlib.import_module(".".join(parts[:i]))
+        except ImportError:
+            continue
+        try:
+            owner = None
+            for p in parts[i:]:
+                owner, obj = obj, (obj.__dict__[p] if isinstance(obj, type) and p in obj.__dict__ else getattr(obj, p))
+            return obj
+        except AttributeError:
+            return None
+    return None
+
+
+def _decorator_returns_def(fq, node, path):
+    """True when the live object bound to `fq` is a plain function running the code compiled from this very
+    `def` (an unknown decorator that hands its argument back): the def body then IS what runs."""
+    import types
+
+    try:
+        obj = _live(fq)
+    except Exception:
+        return False
+    if isinstance(obj, (staticmethod, classmethod)):
+        obj = obj.__func__
+    if not isinstance(obj, types.FunctionType) or hasattr(obj, "__wrapped__"):
+        return False
+    co = obj.__code__
+    lines = {node.lineno} | {d.lineno for d in node.decorator_list}
+    try:
+        same_file = os.path.samefile(co.co_filename, path)
+    except OSError:
+        same_file = False
+    return same_file and co.co_name == node.name and co.co_firstlineno in lines
+
+
+def get_function(fq, _follow=True):
     """fq = 'vc2_conformance.mod.func' or 'vc2_conformance.mod.Class.method'."""
     parts = fq.split(".")
     # find longest module prefix
@@ -146,12 +202,25 @@ def get_function(fq):
                 ):
                     found = child
             if found is None:
-                raise KeyError("function %s not found in %s" % (fq, path))
+                if _follow:
+                    # a method inherited from a base class, or a name re-exported from another module of the tree:
+                    # ask the live object where its `def` is
+                    try:
+                        obj = _live(fq)
+                    except Exception:
+                        obj = None
+                    if isinstance(obj, (staticmethod, classmethod)):
+                        obj = obj.__func__
+                    real = fq_of(obj) if obj is not None else None
+                    if real and real != fq and "<locals>" not in real:
+                        fs = get_function(real, _follow=False)
+                        return FuncSrc(fs.module, fs.qualname, fs.node, fs.path, cls if cls else fs.cls)
+                raise NoSource("function %s has no def in %s" % (fq, path))
             if isinstance(found, ast.ClassDef):
                 cls = found.name
             node = found
         if not isinstance(node, ast.FunctionDef):
-            raise KeyError("%s is not a function" % fq)
+            raise NoSource("%s is not a function" % fq)
         for d in node.decorator_list:
             dn = d.func if isinstance(d, ast.Call) else d
             name = dn.id if isinstance(dn, ast.Name) else getattr(dn, "attr", "?")
@@ -160,9 +229,22 @@ def get_function(fq):
                 "staticmethod",
                 "context_type",
             ):
-                raise KeyError("%s has unsupported decorator %s" % (fq, name))
+                if _decorator_returns_def(fq, node, path):
+                    continue
+                raise NoSource("%s has unsupported decorator %s" % (fq, name))
         return FuncSrc(modname, ".".join(rest), node, path, cls)
-    raise KeyError("no module found for %s" % fq)
+    raise NoSource("no module found for %s" % fq)
+
+
+def module_prefix(fq):
+    parts = fq.split(".")
+    for k in range(len(parts) - 1, 0, -1):
+        try:
+            module_path(".".join(parts[:k]))
+            return ".".join(parts[:k])
+        except KeyError:
+            continue
+    return ".".join(parts[:-1])
 
 
 def live_module(modname):
